@@ -13,7 +13,7 @@
 From Coq Require Import List ZArith NArith Bool.
 Import ListNotations.
 From DD Require Import Base.PyStr Base.Value Lfu.LfuModel Diff.DiffModel Hash.HashModel Hash.HashProofsC06 Hash.HashProofsMemo
-  DiffIO.DiffIOModel DiffIO.MemoModel DiffIO.MemoProofs DiffIO.DiffIOProofsExt DiffIO.DiffIOCache DiffIO.DiffIOCacheProofs DiffIO.MemoKeys.
+  DiffIO.DiffIOModel DiffIO.MemoModel DiffIO.MemoProofs DiffIO.DiffIOProofsExt DiffIO.DiffIOCache DiffIO.DiffIOCacheProofs DiffIO.MemoKeys DiffIO.DiffIOOrder DiffIO.DiffIOMemoVerdict.
 
 (* Full strength (every run) is false of the faithful model: when the same key is computed
    with two values the cached run returns something else.  deepdiff does exactly this: the
@@ -75,8 +75,7 @@ Print Assumptions C17_result_cache_independent_partial.
    the cache" - [pp p] evaluated with the current cache state): any schedule, any right initial
    cache (in particular the empty one of any capacity) gives the result of the cache-less traversal
    [diff_io_o] with the pairs the bodies compute, and leaves a right cache behind.
-   ([diff_io_o] lists the children of a dict in the order of t2's keys, as the code does; that it lists
-   the same entries as [diff_io] is checked on every correspondence input, not proved.) *)
+   ([diff_io_o] lists the children of a dict in the order of t2's keys, as the code does; see the next theorem.) *)
 Theorem C17_one_cache_transparent_partial :
   forall (H : pystr -> pystr) udiff skip excl c rep (V : Type) (spec : key -> V)
          (sched : nat -> bool) (pp : path -> prog V) (dec : path -> V -> list (nat * nat)),
@@ -87,6 +86,19 @@ Theorem C17_one_cache_transparent_partial :
   cache_ok spec (mcache (snd (fst (diff_io_st H udiff skip excl c rep V sched pp dec t1 t2 p1 p2 s)))).
 Proof. exact st_transparent. Qed.
 Print Assumptions C17_one_cache_transparent_partial.
+
+(* ... and against [diff_io] itself: the two traversals list the same entries (DiffIO/DiffIOOrder.v) *)
+Theorem C17_one_cache_vs_diff_io_partial :
+  forall (H : pystr -> pystr) udiff skip excl c rep (V : Type) (spec : key -> V)
+         (sched : nat -> bool) (pp : path -> prog V) (dec : path -> V -> list (nat * nat)),
+  (forall p, consistent spec (pp p)) ->
+  forall t1 t2 p1 p2 (s : mstate V), cache_ok spec (mcache s) -> wf t1 = true -> wf t2 = true ->
+  let r := fst (fst (diff_io_st H udiff skip excl c rep V sched pp dec t1 t2 p1 p2 s)) in
+  let r' := diff_io H udiff skip excl c rep (fun p => dec p (run_pure (pp p))) t1 t2 p1 p2 in
+  Permutation.Permutation (fst r) (fst r') /\ Permutation.Permutation (snd r) (snd r') /\
+  cache_ok spec (mcache (snd (fst (diff_io_st H udiff skip excl c rep V sched pp dec t1 t2 p1 p2 s)))).
+Proof. exact st_vs_diff_io. Qed.
+Print Assumptions C17_one_cache_vs_diff_io_partial.
 
 Theorem C17_one_cache_settings_agree_partial :
   forall (H : pystr -> pystr) udiff skip excl c rep (V : Type) (spec : key -> V)
